@@ -391,6 +391,9 @@ func drive(args []string) int {
 			distinct[binary.LittleEndian.Uint64(r.hashes[i:])] = struct{}{}
 		}
 		viols = append(viols, r.res.Violations...)
+		for _, w := range r.res.Watchdogs {
+			inconclusive = append(inconclusive, fmt.Sprintf("worker %s/%d: an operation did not return within its wall-clock bound: %s", fl, r.shard, w))
+		}
 		if r.exitErr != nil {
 			inconclusive = append(inconclusive, fmt.Sprintf("worker %s/%d exited with %v after writing its result", fl, r.shard, r.exitErr))
 		}
